@@ -268,13 +268,7 @@ def run(ctx):
         v = x.ast.value
         okd = False
         if isinstance(v, ast.Name):
-            for (t, pol, _g) in cfg.guards(x):
-                if isinstance(t, ast.expr):
-                    tt = norm(t)
-                    if tt == 'not isinstance(%s, dict)' % v.id and not pol:
-                        okd = True
-                    if tt == 'isinstance(%s, dict)' % v.id and pol:
-                        okd = True
+            okd = U.guarded(cfg, x, 'isinstance(%s, dict)' % v.id, True)
         elif isinstance(v, ast.Dict):
             okd = True
         r6.check(okd, ctx.construct(py, x.ast),
@@ -313,14 +307,8 @@ def run(ctx):
             n_loops += 1
             for u in uses:
                 un = fcfg.node_of(u)
-                guarded = False
-                for (t, pol, _g) in fcfg.guards(un):
-                    if isinstance(t, ast.expr):
-                        tt = norm(t)
-                        if (tt == 'isinstance(%s, dict)' % elem and pol) or \
-                                (tt == 'not isinstance(%s, dict)' % elem and
-                                 not pol):
-                            guarded = True
+                guarded = U.guarded(fcfg, un,
+                                    'isinstance(%s, dict)' % elem, True)
                 why = ''
                 if not guarded and f.qname in SCHEMA_TYPED_LOOPS:
                     key, why = SCHEMA_TYPED_LOOPS[f.qname]
@@ -388,10 +376,18 @@ def run(ctx):
     if not keyuse:
         raise AnalysisError('C14.R6: cache_key assignment lost')
     okk = False
-    for (t, pol, _g) in icfg.guards(keyuse[0]):
-        if isinstance(t, ast.expr) and 'isinstance(polymorphic_val' in \
-                norm(t) and not pol:
-            okk = True
+    okk = False
+    for bnd in U.guard_match(icfg, keyuse[0],
+                             'isinstance(polymorphic_val, __types)', False):
+        # rejected: the unhashable YAML node kinds
+        tn = {dotted(e) for e in getattr(bnd['__types'], 'elts',
+                                         [bnd['__types']])}
+        okk = okk or {'dict', 'list'} <= tn
+    for bnd in U.guard_match(icfg, keyuse[0],
+                             'isinstance(polymorphic_val, __types)', True):
+        tn = {dotted(e) for e in getattr(bnd['__types'], 'elts',
+                                         [bnd['__types']])}
+        okk = okk or (bool(tn) and tn <= {'str', 'int', 'bool', 'float'})
     r6.check(okk, ctx.construct(isp, extra='hashable discriminator'),
              'the raw polymorphic key value becomes part of a dict key '
              'without a type check: an unhashable value (list / mapping) '
@@ -401,10 +397,7 @@ def run(ctx):
           isinstance(x.ast, ast.Assign) and
           dotted(x.ast.targets[0]) == 'polymorphic_val']
     for x in dg:
-        for (t, pol, _g) in icfg.guards(x):
-            if isinstance(t, ast.expr) and \
-                    norm(t) == 'not isinstance(data, dict)' and not pol:
-                okd = True
+        okd = okd or U.guarded(icfg, x, 'isinstance(data, dict)', True)
     r6.check(okd, ctx.construct(isp, extra='data is a mapping'),
              'data.get() on the raw node is not preceded by '
              'isinstance(data, dict)', ctx.loc(isp))
@@ -587,11 +580,7 @@ def _nonstring_only(ctx, f, raise_node):
     sn = cfg.stmt_node(raise_node)
     if sn is None:
         return False
-    for (t, pol, _g) in cfg.guards(sn):
-        if isinstance(t, ast.expr) and pol and \
-                norm(t) == 'not isinstance(expression, str)':
-            return True
-    return False
+    return U.guarded(cfg, sn, 'isinstance(expression, str)', False)
 
 
 def _entry_filters_str(prog):
